@@ -4,7 +4,11 @@ package main
 // factory, method values on different receivers, generic instantiations, top-level functions.
 // All of them are `func() *P0` constructors bound to a registration through a slot table.
 
-import "reflect"
+import (
+	"reflect"
+
+	godi "github.com/junioryono/godi/v4"
+)
 
 // static0 is the body shared by every static constructor: same protocol as ctorBody.
 func (r *Run) static0(reg *Reg) *P0 {
@@ -81,4 +85,54 @@ func (r *Run) staticFn(reg *Reg) any {
 	}
 	ft := reflect.TypeOf(func() *P0 { return nil })
 	return reflect.MakeFunc(ft, func(args []reflect.Value) []reflect.Value { return r.ctorBody(reg, ft, args) }).Interface()
+}
+
+// Parameter and result objects with an embedded (anonymous) service field. The field order after the marker is
+// the order of Form.Params / Form.Fields, as in the synthesised structs.
+type (
+	embIn0 struct {
+		godi.In
+		*P0
+	}
+	embIn1 struct {
+		godi.In
+		*P0
+		F1 *P1
+	}
+	embIn2 struct {
+		godi.In
+		F0 *P1 `optional:"true"`
+		*P0
+	}
+	embOut0 struct {
+		godi.Out
+		*P2
+		R1 *P3
+	}
+)
+
+// embInType returns the static parameter-object type for a parameter list with an embedded field, nil if none fits.
+func embInType(ps []Param) reflect.Type {
+	plain := func(p Param, ty int, opt bool) bool {
+		return !p.Skip && !p.Emb && p.Dep.Ty == ty && p.Dep.Name == 0 && p.Dep.Group == 0 && p.Dep.Opt == opt
+	}
+	emb := func(p Param, ty int) bool {
+		return !p.Skip && p.Emb && p.Dep.Ty == ty && p.Dep.Name == 0 && p.Dep.Group == 0 && !p.Dep.Opt
+	}
+	switch {
+	case len(ps) == 1 && emb(ps[0], 0):
+		return reflect.TypeOf(embIn0{})
+	case len(ps) == 2 && emb(ps[0], 0) && plain(ps[1], 1, false):
+		return reflect.TypeOf(embIn1{})
+	case len(ps) == 2 && plain(ps[0], 1, true) && emb(ps[1], 0):
+		return reflect.TypeOf(embIn2{})
+	}
+	return nil
+}
+
+func embOutType(fs []Field) reflect.Type {
+	if len(fs) == 2 && fs[0].Emb && fs[0].Ty == 2 && fs[0].Name == 0 && fs[0].Group == 0 && !fs[1].Emb && fs[1].Ty == 3 && fs[1].Name == 0 && fs[1].Group == 0 {
+		return reflect.TypeOf(embOut0{})
+	}
+	return nil
 }
